@@ -54,6 +54,8 @@ def fn_spec(draw, d):
 def make_fn(s, d):
     fam, i = s['family'], s['index']
     if fam == 'constant':
+        if s.get('prefactor', 1.0) != 1.0:
+            return tdt.Monomial(i, 0, prefactor=s['prefactor'], dimension=d)      # a scaled constant
         return tdt.ConstantFunction(i, dimension=d)
     if fam == 'identity':
         return tdt.Identity(i, dimension=d)
@@ -72,7 +74,7 @@ def g012(s, t):
     """value, first and second derivative of the one-dimensional factor at t (independent closed forms)"""
     fam = s['family']
     if fam == 'constant':
-        return 1.0, 0.0, 0.0
+        return float(s.get('prefactor', 1.0)), 0.0, 0.0
     if fam == 'identity':
         return t, 1.0, 0.0
     if fam == 'monomial':
@@ -175,7 +177,9 @@ def tgedmd_case(draw):
     c = draw(basis_case(min_funcs=2))
     # a constant in the first mode keeps Psi from vanishing
     c['phi'][0][0] = {'family': 'constant', 'index': 0}
-    c.update({'m': draw(st.integers(4, 10)), 'reversible': draw(st.booleans()), 'reweight': draw(st.booleans()),
+    # overall scale of Psi (absolute and relative thresholds must be told apart): every function of mode 0 is multiplied ...
+    c['scale_exp'] = draw(st.sampled_from([0, 0, -8, 6]))
+    c.update({'max_rank': draw(st.sampled_from([None, None, 1000])),'m': draw(st.integers(4, 10)), 'reversible': draw(st.booleans()), 'reweight': draw(st.booleans()),
               'rel_threshold': draw(st.booleans()), 'threshold_exp': draw(st.sampled_from([-10, -9, -8])),
               'return_option': draw(st.sampled_from(['eigenfunctionevals', 'eigenvectors', 'eigentensors'])),
               'num_eigvals': draw(st.sampled_from([None, None, 1, 2, 3]))})
@@ -185,6 +189,11 @@ def tgedmd_case(draw):
 def body_tgedmd(c):
     rng = np.random.default_rng(c['seed'])
     d, d2, m = c['d'], c['d2'], c['m']
+    if c.get('scale_exp', 0):
+        # ... by prepending a one-function mode holding the scaled constant 10^k (Psi, L Psi and grad Psi scale with it)
+        c = dict(c)
+        # (as the FIRST mode: an absolute threshold acts on every intermediate residual of the sequential SVD)
+        c['phi'] = [[{'family': 'constant', 'index': 0, 'prefactor': 10.0 ** c['scale_exp']}]] + [list(f) for f in c['phi']]
     basis = [[make_fn(s, d) for s in f] for f in c['phi']]
     n = [len(f) for f in c['phi']]
     p = len(n)
@@ -228,10 +237,15 @@ def body_tgedmd(c):
             M += -0.5 * ww[l] * v.T @ a @ v
     lam = np.linalg.eigvals(M)
     lmax = max(np.max(np.abs(lam)), 1e-300)
-    th = 10.0 ** c['threshold_exp'] * (1.0 if c['rel_threshold'] else S[0])
+    # far below every non-zero singular value (ratios >= 1e-4) but not negligible: 1e-6 relative, resp. 1e-6 * S[0] absolute --
+    # confusing the two conventions on rescaled data cuts everything or nothing
+    th = (10.0 ** max(c['threshold_exp'], -6)) * (1.0 if c['rel_threshold'] else S[0]) if c.get('scale_exp', 0) else \
+        10.0 ** c['threshold_exp'] * (1.0 if c['rel_threshold'] else S[0])
     kw = dict(threshold=th, rel_threshold=c['rel_threshold'], return_option=c['return_option'])
     if c['num_eigvals'] is not None:
         kw['num_eigvals'] = c['num_eigvals']
+    if c.get('max_rank'):
+        kw['max_rank'] = c['max_rank']            # a cap above every rank is a no-op
     snap_X, snap_s = X.copy(), sigma.copy()
     with contextlib.redirect_stdout(io.StringIO()):
         out = tg.amuset_hosvd(X, basis, sigma, b=b, reweight=w, **kw)
@@ -269,6 +283,8 @@ def body_tgedmd(c):
         lab.add('num_eigvals_cut')
     if r < min(N, m):
         lab.add('rank_deficient_psi')
+    if c.get('scale_exp', 0):
+        lab.add('rescaled_psi')
     return lab
 
 
@@ -281,5 +297,5 @@ SUBCHECKS = [
         classes=['nonsquare_sigma', 'modes>=3', 'shared_coordinate']),
     Sub('tgedmd', tgedmd_case(), body_tgedmd, nt, quick=120, thorough=1200, shards_quick=8, budget_quick=150,
         classes=['reversible', 'non_reversible', 'reweighting', 'nonsquare_sigma', 'rel_threshold', 'abs_threshold', 'ret_eigentensors',
-                 'ret_eigenvectors', 'ret_eigenfunctionevals', 'num_eigvals_cut', 'modes>=3']),
+                 'ret_eigenvectors', 'ret_eigenfunctionevals', 'num_eigvals_cut', 'modes>=3', 'rescaled_psi']),
 ]
